@@ -87,12 +87,15 @@ type rng struct{ b, e int64 }
 
 // shadow is what the harness knows about the staged copy of one name.
 type shadow struct {
-	hash         string // announced hash the ranges below belong to
-	size         int64
-	acked        []rng // Receive returned nil and the reader delivered the full length
-	otherOffered bool  // since then a part of another version of the name was offered and not recorded
-	fed          map[int64]byte
-	dirty        bool // some acked byte differs from the true content of the version (or staged copy overwritten)
+	hash           string // announced hash the ranges below belong to
+	size           int64
+	acked          []rng // Receive returned nil and the reader delivered the full length
+	rejectedCopy   bool  // the ranges on record make up a complete copy that is corrupt
+	attemptUnknown bool  // a part was offered again before the rejection was seen at rest: no attempt modelling for this version
+	awaitingResend bool  // the receiver, at rest, reports that copy failed: the next part of this version opens a new attempt
+	otherOffered   bool  // since then a part of another version of the name was offered and not recorded
+	fed            map[int64]byte
+	dirty          bool // some acked byte differs from the true content of the version (or staged copy overwritten)
 }
 
 type Arrival struct {
@@ -361,6 +364,25 @@ func (w *World) prepare(parts []PartSpec) {
 	for i, p := range parts {
 		bs[i] = &binned{p.V, p.Beg, p.End}
 	}
+	// a sender transmits a version again, from scratch, after a failed verdict: once the world has
+	// been seen at rest with the complete copy of the record rejected (see markRejected), what
+	// follows is a new attempt and nothing acknowledged for the rejected copy counts any more
+	w.mu.Lock()
+	for _, p := range parts {
+		if s := w.shadows[p.V.Name]; s != nil && s.hash == p.V.Hash {
+			if s.awaitingResend {
+				s.acked, s.dirty, s.rejectedCopy, s.awaitingResend = nil, false, false, false
+				delete(w.completed, p.V.key())
+				w.t.Class("new-attempt-after-failed-verdict")
+			} else if s.rejectedCopy {
+				// offered again before the world was seen at rest: where the new attempt
+				// begins is not known to the model, which then keeps out of it
+				s.rejectedCopy = false
+				s.attemptUnknown = true
+			}
+		}
+	}
+	w.mu.Unlock()
 	w.st.Prepare(bs)
 	// preparing for a part of another version may re-create the staged partial (it is keyed by
 	// name) while the record still describes the previous version
@@ -417,6 +439,7 @@ func (w *World) receiveAll(parts []PartSpec, tag string) (n int, err error) {
 				s.acked = nil
 				s.dirty = false
 				s.otherOffered = false
+				s.rejectedCopy, s.awaitingResend, s.attemptUnknown = false, false, false
 			} else {
 				// a part of another version was offered and refused: the receiver may have re-created
 				// or partly overwritten the staged partial (it is keyed by name) while the record still
@@ -437,6 +460,9 @@ func (w *World) receiveAll(parts []PartSpec, tag string) (n int, err error) {
 			}
 			if covered(s.acked, 0, s.size) {
 				w.completed[p.V.key()] = true
+				if s.dirty && !p.V.Liar() && !s.attemptUnknown {
+					s.rejectedCopy = true // complete but not what was announced: validation rejects it
+				}
 			}
 			w.mu.Unlock()
 		} else {
@@ -560,6 +586,28 @@ func (w *World) takeEarly() []Arrival {
 	e := w.early
 	w.early = nil
 	return e
+}
+
+// markRejected is called with the world at rest: complete corrupt copies that the receiver
+// reports as failed are from now on waiting to be sent again.
+func (w *World) markRejected() {
+	w.mu.Lock()
+	var cand []*Version
+	for name, s := range w.shadows {
+		if s.rejectedCopy && !s.awaitingResend {
+			if v := w.byKey[name+"|"+s.hash]; v != nil {
+				cand = append(cand, v)
+			}
+		}
+	}
+	w.mu.Unlock()
+	for _, v := range cand {
+		if w.st.GetFileStatus(v.Name, v.Time) == sts.ConfirmFailed {
+			w.mu.Lock()
+			w.shadows[v.Name].awaitingResend = true
+			w.mu.Unlock()
+		}
+	}
 }
 
 func (w *World) LogRecords() []LogRec {
